@@ -33,6 +33,9 @@ class SpecSim(Sim):
 
     def after_op(self, op):
         super().after_op(op)
+        many = self.u.get('profile', {}).get('many_lex')
+        if many and len(self.m.installed) not in (many, many - 1):
+            return                 # the world of several hundred lexicons is judged when full
         if 'specifiers' in self.oracles:
             self.check_specifiers()
 
@@ -177,7 +180,17 @@ class SpecSim(Sim):
         return 'different'
 
 
+def build_many(seed):
+    rng = subseed(seed, 'universe-many')
+    u = U.generate_many_lex(rng)
+    plan = [{'op': 'add', 'res': r['name']} for r in u['resources']]
+    plan.append({'op': 'remove', 'spec': rng.choice(u['order'])})
+    return u, plan
+
+
 def build(seed):
+    if subseed(seed, 'many').random() < 0.002:
+        return build_many(seed)    # more than 256 / 512 installed lexicons
     rng = subseed(seed, 'universe')
     prof = U.Profile.draw(rng)
     prof.update(n_bases=rng.choice([2, 3, 3]), p_second_version=0.9, max_entries=1,
